@@ -25,13 +25,26 @@ inline std::string slurp_tail(const std::string& path, size_t max = 6000) {
     fseek(f, 0, SEEK_END); long n = ftell(f); long st = n > (long)max ? n - (long)max : 0; fseek(f, st, SEEK_SET);
     s.resize((size_t)(n - st)); if (!s.empty()) { size_t r = fread(&s[0], 1, s.size(), f); s.resize(r); } fclose(f); return s;
 }
-inline std::string summarize(const std::string& err) {
+inline std::string ovm_frames(const std::string& err, int max = 3) {
+    std::string out; size_t pos = 0; int n = 0;
+    while (n < max && (pos = err.find(" in OpenVolumeMesh::", pos)) != std::string::npos) {
+        size_t b = pos + 4; size_t e = err.find_first_of("(\n", b); std::string f = err.substr(b, e == std::string::npos ? 80 : e - b);
+        while (!f.empty() && f.back() == ' ') f.pop_back();
+        size_t lp = err.find('\n', pos); std::string line = err.substr(pos, lp == std::string::npos ? std::string::npos : lp - pos);
+        size_t sl = line.rfind('/'); std::string loc = sl == std::string::npos ? "" : line.substr(sl + 1);
+        for (auto& c : f) if (c == ' ') c = '_';
+        out += (n ? "<" : "") + f + "@" + loc; ++n; pos = b;
+    }
+    return out;
+}
+inline std::string summarize1(const std::string& err) {
     // first sanitizer / assertion line, single-line
-    const char* keys[] = {"ERROR: AddressSanitizer", "runtime error:", "Assertion", "terminate called", "SUMMARY:"};
+    const char* keys[] = {"Assertion", "runtime error:", "ERROR: AddressSanitizer: heap", "ERROR: AddressSanitizer: stack", "ERROR: AddressSanitizer: SEGV", "ERROR: AddressSanitizer: alloc", "ERROR: AddressSanitizer: out", "terminate called", "ERROR: AddressSanitizer", "SUMMARY:"};
     for (auto k : keys) { auto p = err.find(k); if (p != std::string::npos) { auto e = err.find('\n', p); std::string l = err.substr(p, e == std::string::npos ? std::string::npos : e - p);
-        for (auto& c : l) if (c == ' ') c = '_'; return l.substr(0, 200); } }
+        for (auto& c : l) if (c == ' ') c = '_'; return l.substr(0, 160); } }
     return "no-diagnostic";
 }
+inline std::string summarize(const std::string& err) { return summarize1(err) + " at=" + ovm_frames(err); }
 inline bool is_alloc_failure(const std::string& err) {
     return err.find("allocation-size-too-big") != std::string::npos || err.find("out of memory") != std::string::npos
         || err.find("out-of-memory") != std::string::npos || err.find("requested allocation size") != std::string::npos
